@@ -23,7 +23,10 @@ def make_chain(seed, coin, nblocks, base=0):
         txs = [cb.spend_tx(rng.randint(1, 2), outs=[cb.out(rng.choice(["p2pkh", "p2sh", "opreturn", "p2pk33", "nonstd"]))
                                                     for _ in range(rng.randint(1, 3))]) for _ in range(rng.randint(0, 2))]
         cb.add_block(txs=txs)
-    return cb.chain()
+    chain = cb.chain()
+    if rng.random() < 0.3:
+        gen.add_slack(rng, chain, coin, share=0.5)      # records longer than their block (bytes behind the block inside the record)
+    return chain
 
 
 def expected_events(chain, s, e):
